@@ -758,15 +758,21 @@ func run(c *hx.Ctx) error {
 			if want := t.pre + direct + t.post; got != want {
 				res.AddBreak(proto.Break{Kind: "correspondence", Name: "template-vs-direct-escaper:" + e.name, Case: "C07 esc " + e.name + " " + proto.Hex([]byte(s)),
 					Human: fmt.Sprintf("template %s `%s` with v=%q", t.file, t.src, s), Impl: got, Model: want})
-				continue
 			}
-			// the property on the rendered text itself
-			if e.oracle != nil {
-				body := strings.TrimSuffix(strings.TrimPrefix(got, t.pre), t.post)
-				if clause := e.oracle(s, body); clause != "" && !reported["tmpl"+e.name+clause] {
+			// the property on the rendered text itself, whether or not it is what the escaper
+			// called directly writes
+			if e.oracle != nil && strings.HasPrefix(got, t.pre) && strings.HasSuffix(got, t.post) && len(got) >= len(t.pre)+len(t.post) {
+				bodyOf := func(doc string) string { return strings.TrimSuffix(strings.TrimPrefix(doc, t.pre), t.post) }
+				if clause := e.oracle(s, bodyOf(got)); clause != "" && !reported["tmpl"+e.name+clause] {
 					reported["tmpl"+e.name+clause] = true
-					res.AddBreak(proto.Break{Kind: "property", Name: "template:" + e.name + ":" + clause, Case: "C07 esc " + e.name + " " + proto.Hex([]byte(s)),
-						Human: fmt.Sprintf("template %s `%s` with v=%q renders %q", t.file, t.src, s, got), Impl: "ok " + proto.Hex([]byte(body)), Model: "decodes to " + proto.Hex([]byte(s))})
+					min := string(hx.ShrinkBytes([]byte(s), func(b []byte) bool {
+						doc, fail := t.render(string(b))
+						return fail == "" && strings.HasPrefix(doc, t.pre) && strings.HasSuffix(doc, t.post) && len(doc) >= len(t.pre)+len(t.post) &&
+							e.oracle(string(b), bodyOf(doc)) == clause
+					}))
+					mdoc, _ := t.render(min)
+					res.AddBreak(proto.Break{Kind: "property", Name: "template:" + e.name + ":" + clause, Case: "C07 esc " + e.name + " " + proto.Hex([]byte(min)),
+						Human: fmt.Sprintf("template %s `%s` with v=%q renders %q, which does not decode back to v", t.file, t.src, min, mdoc), Impl: "ok " + proto.Hex([]byte(bodyOf(mdoc))), Model: "decodes to " + proto.Hex([]byte(min))})
 				}
 			}
 		}
@@ -824,5 +830,8 @@ func run(c *hx.Ctx) error {
 			}
 		}
 	}
-	return runURL(c)
+	if err := runURL(c); err != nil {
+		return err
+	}
+	return runURLDoc(c)
 }
